@@ -17,3 +17,118 @@ package section
 //@     invariant p.offset <= len(p.content) || p.offset == old(p.offset)
 //@     invariant forall i int :: old(p.offset) <= i && i < p.offset ==> p.content[i] != '\n'
 //@     decreases len(p.content) - p.offset
+
+//@ func isComment(s) (r)
+//@   ensures [C13] r == isCommentLine(string(s))
+//@   assigns nothing
+
+//@ func notIsSpace(ch) (r)
+//@   pure
+
+//@ func validateChangeName(s) (i, ch, ok)
+//@   ensures !ok ==> 0 <= i && i < len(s)
+//@   ensures ok ==> i == 0
+//@   assigns nothing
+//@   loop 0
+//@     decreases _
+
+// Posts a diagnostic at a byte offset of the patch file.
+//@ func (p *programSplitter) errf(off, msg, args)
+//@   requires p.file != nil
+//@   assigns p.errors, elems(p.errors)
+//@   ensures [C19] one-diagnostic-appended: len(p.errors) == old(len(p.errors)) + 1 && p.errors[old(len(p.errors))] != nil
+//@   ensures forall i int {p.errors[i]} :: 0 <= i && i < old(len(p.errors)) ==> p.errors[i] == old(p.errors[i])
+//@   ensures errors-array-same-or-fresh: p.errors.arr == old(p.errors.arr) || fresh(p.errors.arr)
+//@   ensures len(p.errors) >= old(len(p.errors))
+
+// Advances to the next non-comment line; '#' lines never become the current line, and the
+// remembered description is exactly the run of comment lines directly above the new current line.
+//@ func (p *programSplitter) next
+//@   requires 0 <= p.offset && p.offset <= len(p.content) + 1 && p.file != nil && 0 <= p.startOffset && (p.eof ==> p.offset >= len(p.content))
+//@   ensures lineOK(p)
+//@   assigns p.lastComments, p.startOffset, p.offset, p.text, p.pos, p.eof
+//@   ensures [C13] comment-lines-are-never-current: !p.eof ==> !isCommentLine(string(p.text))
+//@   ensures [C13,C19] current-line-is-a-whole-line-of-the-file: !p.eof ==> old(p.offset) <= p.startOffset && p.startOffset < len(p.content) && p.offset <= len(p.content) + 1 && p.text == p.content[p.startOffset:p.offset - 1]
+//@   ensures [C19] line-position-recorded: !p.eof ==> p.pos == filePos(p.file, p.startOffset)
+//@   ensures [C13] description-is-reset-by-every-non-comment-line: !p.eof && p.startOffset == old(p.offset) ==> len(p.lastComments) == 0
+//@   ensures p.eof ==> old(p.eof) || p.offset >= len(p.content)
+//@   ensures p.offset >= old(p.offset)
+//@   ensures [C08] progress: !p.eof ==> p.offset > old(p.offset)
+//@   ensures eof-is-final: old(p.eof) ==> p.eof
+//@   loop 0
+//@     invariant old(p.offset) <= p.offset
+//@     invariant p.eof == old(p.eof) && 0 <= p.startOffset && p.offset <= len(p.content) + 1
+//@     invariant p.offset == old(p.offset) ==> len(p.lastComments) == 0
+//@     invariant p.lastComments.arr == 0 || fresh(p.lastComments.arr)
+//@     decreases len(p.content) - p.offset
+
+// Reads "@@" or "@ name @"; an invalid name is reported at the offset of its offending character,
+// any other text at the start of the line.
+//@ func (p *programSplitter) readName() (name)
+//@   requires lineOK(p)
+//@   ensures lineOK(p)
+//@   ensures [C08] progress: !p.eof ==> p.offset > old(p.offset)
+//@   ensures eof-is-final: old(p.eof) ==> p.eof
+//@   assigns p.lastComments, p.startOffset, p.offset, p.text, p.pos, p.eof, p.errors, elems(p.errors)
+//@   ensures p.offset >= old(p.offset)
+//@   ensures errors-array-same-or-fresh: p.errors.arr == old(p.errors.arr) || fresh(p.errors.arr)
+//@   ensures len(p.errors) >= old(len(p.errors))
+//@   at call (*parse/section.programSplitter).errf#1 assert [C19] invalid-name-reported-at-the-offending-character: 0 <= i && i < len(name) && arg1 == p.startOffset + shift + i && arg1 < len(p.content) && p.content[arg1] == name[i]
+//@   at call (*parse/section.programSplitter).errf#0 assert [C19] bad-header-reported-at-line-start: arg1 == p.startOffset
+
+//@ func (p *programSplitter) readMeta() (s)
+//@   requires lineOK(p)
+//@   ensures lineOK(p)
+//@   ensures eof-is-final: old(p.eof) ==> p.eof
+//@   assigns p.lastComments, p.startOffset, p.offset, p.text, p.pos, p.eof, p.errors, elems(p.errors)
+//@   ensures p.offset >= old(p.offset)
+//@   ensures errors-array-same-or-fresh: p.errors.arr == old(p.errors.arr) || fresh(p.errors.arr)
+//@   ensures len(p.errors) >= old(len(p.errors))
+//@   loop 0
+//@     invariant p.offset >= old(p.offset) && lineOK(p) && (old(p.eof) ==> p.eof)
+//@     invariant p.errors == old(p.errors)
+//@     invariant s.arr == 0 || fresh(s.arr)
+//@     decreases len(p.content) + 1 - p.offset + ite(p.eof, 0, 1)
+
+//@ func (p *programSplitter) readPatch() (s)
+//@   requires lineOK(p)
+//@   ensures lineOK(p)
+//@   ensures eof-is-final: old(p.eof) ==> p.eof
+//@   assigns p.lastComments, p.startOffset, p.offset, p.text, p.pos, p.eof
+//@   ensures p.offset >= old(p.offset)
+//@   loop 0
+//@     invariant p.offset >= old(p.offset) && lineOK(p) && (old(p.eof) ==> p.eof)
+//@     invariant s.arr == 0 || fresh(s.arr)
+//@     decreases len(p.content) + 1 - p.offset + ite(p.eof, 0, 1)
+
+// A change's description is what was remembered when its header line became current: the '#' lines
+// directly above the header (C13).
+//@ func (p *programSplitter) readChange() (c)
+//@   requires lineOK(p)
+//@   ensures lineOK(p)
+//@   ensures [C08] progress: !p.eof ==> p.offset > old(p.offset)
+//@   ensures eof-is-final: old(p.eof) ==> p.eof
+//@   assigns p.lastComments, p.startOffset, p.offset, p.text, p.pos, p.eof, p.errors, elems(p.errors)
+//@   ensures c != nil
+//@   ensures [C13] description-is-the-comment-run-above-the-header: c.Comments == old(p.lastComments)
+//@   ensures [C19] header-position-is-the-header-line: c.HeaderPos == old(p.pos)
+//@   ensures p.offset >= old(p.offset)
+//@   ensures errors-array-same-or-fresh: p.errors.arr == old(p.errors.arr) || fresh(p.errors.arr)
+//@   ensures len(p.errors) >= old(len(p.errors))
+
+
+// A program is the sequence of its changes in file order (C09); an empty patch is an error.
+//@ func (p *programSplitter) readProgram() (prog)
+//@   requires lineOK(p)
+//@   assigns p.lastComments, p.startOffset, p.offset, p.text, p.pos, p.eof, p.errors, elems(p.errors)
+//@   ensures [C19] empty-patch-is-rejected: len(prog) == 0 ==> len(p.errors) > old(len(p.errors))
+//@   loop 0
+//@     invariant lineOK(p)
+//@     invariant prog.arr == 0 || fresh(prog.arr)
+//@     invariant len(p.errors) >= old(len(p.errors))
+//@     invariant p.errors.arr == old(p.errors.arr) || fresh(p.errors.arr)
+//@     decreases len(p.content) + 1 - p.offset + ite(p.eof, 0, 1)
+
+//@ func Split(fset, filename, content) (prog, err)
+//@   requires fset != nil
+//@   assigns nothing
